@@ -8,7 +8,7 @@ from vt import core, gen
 from vt.core import Checker, lib, dense, DT, UNIT, fro
 from vt.props.c02 import scramble
 
-RULE = ("Sources of order 1-6 with modes from {1,2,3,4,6,8} (<=4096 entries), ranks 1-4, real and complex, float32, "
+RULE = ("(operand norms are additionally scaled by 10^k, k in {-8,-4,0,3,6}, on a drawn core: all bounds are relative) Sources of order 1-6 with modes from {1,2,3,4,6,8} (<=4096 entries), ranks 1-4, real and complex, float32, "
         "optionally gauge-scrambled. reshape: a random *ordered factorisation* of the element count (prime factors "
         "shuffled and grouped into <=6 parts) with 0-2 singleton modes inserted anywhere, singleton modes in the source "
         "at front/middle/end; operators with independently factorised row and column sizes. permute: every permutation "
@@ -64,6 +64,7 @@ def strategy_case(draw):
                                "to_qtt_ttm", "qtt_roundtrip"]))
     dt = draw(st.sampled_from(["f64", "f64", "c128", "c128", "f32", "c64"]))
     case = {"op": op, "dt": dt, "seed": draw(gen.SEED), "scramble": draw(st.sampled_from([0, 0, 0, 1, 1e2, 1e4])),
+            "scale_exp": draw(st.sampled_from([0, 0, 0, -8, -4, 3, 6])), "scale_core": draw(st.integers(0, 5)),
             "eps": draw(st.sampled_from([None, None, "log", "log", "log"]))}
     if case["eps"] == "log":
         case["eps"] = 10 ** draw(st.floats(-14, -1))
@@ -144,6 +145,10 @@ def execute(case):
     if case["scramble"]:
         cores = scramble(cores, case["scramble"], g, wdt)
         ck.label("scrambled")
+    if case.get("scale_exp", 0) and dt in ("f64", "c128"):
+        k = case["scale_core"] % d
+        cores[k] = cores[k] * (10.0 ** case["scale_exp"])
+        ck.label("scaled:1e%d" % case["scale_exp"])
     cores = [c.to(DT[dt]).contiguous() for c in cores]
     x = T.TT([c.clone() for c in cores])
     xd = dense(cores)
